@@ -137,11 +137,21 @@ def check_image(meta, r, model_line, spec_script):
             ea = abs_items(exp or [], soffs.get(sid, 0), cls)
             if not crashlib.is_subsequence(ga, ea):
                 probs.append(("signal %d: returned %s entries are not written ones in order" % (sid, cls), None))
+            # clean stop with all definitions on disk: the iteration itself must work (at most the entry in flight is lost), not fail
+            # with an error code although several complete entries of this track are on disk
+            nsub = meta.get("submitted_items", {}).get((cls, sid), 0)
+            if j == 0 and meta["defs_done"] and kind != "ctl" and nsub >= 1 and (not rest or rest[0] != "0"):
+                probs.append(("signal %d: %d %s entries were written before the clean stop but the iteration on the reopened file ends with an error code: %s"
+                              % (sid, nsub, cls, d1.get(kind_op, "")[:80]), "clean-stop-%s-iteration-fails" % cls))
     got, rest = proglib.parse_items(d1.get("udr", "")[3:])
     exp, _ = proglib.parse_items(spec.get("udr", "")[3:])
     if got is not None and rest and rest[0] == "0":
         if not crashlib.is_subsequence(got, exp or []):
             probs.append(("returned user data are not written items in order", None))
+    nud = meta.get("submitted_items", {}).get(("ud", 0), 0)
+    if got is not None and j == 0 and meta["defs_done"] and kind != "ctl" and nud >= 1 and (not rest or rest[0] != "0"):
+        probs.append(("%d user-data items were written before the clean stop but the iteration on the reopened file ends with an error code: %s" % (nud, d1.get("udr", "")[:80]),
+                      "clean-stop-udata-iteration-fails"))
     return probs
 
 
@@ -182,11 +192,21 @@ def run_images(ctx, nprog, per_program):
                     st = meta["sigs"].get(sid)
                     if st:
                         submitted[sid] = max(submitted.get(sid, 0), int(t[2]) + int(t[3]) - st["first"])
+            sitems = {}
+            for i, o in enumerate(ops):
+                if i < len(marks) and marks[i] <= k:
+                    t = o.split()
+                    if t[0] == "anno":
+                        sitems[("anno", int(t[1]))] = sitems.get(("anno", int(t[1])), 0) + 1
+                    elif t[0] == "utc":
+                        sitems[("utc", int(t[1]))] = sitems.get(("utc", int(t[1])), 0) + 1
+                    elif t[0] == "ud":
+                        sitems[("ud", 0)] = sitems.get(("ud", 0), 0) + 1
             tail = pr["tails"][k] if k < len(pr["tails"]) else (None, None)
             nxt = pr["entries"][k] if k < len(pr["entries"]) else None
             cases.append((crashlib.image_script(ops, meta["sigs"], k, j),
                           dict(tail=tail, next_write=nxt, point=(k, j, kind), sigs=meta["sigs"], has_omit=meta["has_omit"], defs_done=(k >= defs_k),
-                               submitted=submitted, ops=ops, nlog=len(pr["entries"]))))
+                               submitted=submitted, submitted_items=sitems, ops=ops, nlog=len(pr["entries"]))))
     scripts = [c[0] for c in cases]
     impl, _ = proglib.run_pair(ctx, scripts, "plain", model=False, timeout=30)
     parsed = [crashlib.parse_image_result(s, a) for s, a in zip(scripts, impl)]
